@@ -80,6 +80,35 @@ class Tag:
     __repr__ = __str__
 
 
+class Ident:
+    """A value with an identity: prints like the plain string it wraps; a copy.copy / copy.deepcopy of it is a DIFFERENT value
+    (a sentinel compared with `is`, a deliberately shared registry); pickling keeps the name (another process cannot share
+    the object anyway)."""
+
+    def __init__(self, name):
+        self.name = name
+
+    def __str__(self):
+        return self.name
+
+    __repr__ = __str__
+
+    def __eq__(self, other):
+        return isinstance(other, Ident) and other.name == self.name
+
+    def __hash__(self):
+        return hash(("Ident", self.name))
+
+    def __copy__(self):
+        return Ident(self.name + "~copied")
+
+    def __deepcopy__(self, memo):
+        return Ident(self.name + "~deepcopied")
+
+    def __reduce__(self):
+        return (Ident, (self.name,))
+
+
 def render(v):
     """Canonical rendering of a value: nested brackets for arrays / sequences, '<MASKED>' for
     masked elements, str() for leaves."""
